@@ -72,11 +72,14 @@ ViewVerdict(ev) ==
              ELSE "views:" \o L2 \o " view of '" \o ev.s \o "' differs from decoding '" \o p.s \o "'"
 
 DecVerdict(ev) ==
-  LET D == Defects(ev.fam, ev.lvl, ev.s)
+  LET D == IF Has(ev, "long") THEN {"MalformedToken"} ELSE Defects(ev.fam, ev.lvl, ev.s)
       acc == D = {}
-  IN CASE Pid \in {"C07", "C08"} -> AcceptVerdict(ev, acc)
+  IN CASE Has(ev, "long") /\ Pid # "C12" -> "ok"     \* inputs not reproduced in the trace: only C12 judges them
+       [] Pid \in {"C07", "C08"} -> AcceptVerdict(ev, acc)
        [] Pid = "C12" -> (IF ev.panic THEN "panic:Decode panicked on '" \o ev.s \o "'"
-                          ELSE IF ev.obj # ev.ok THEN "fabricated:object and error disagree for '" \o ev.s \o "'" ELSE "ok")
+                          ELSE IF ev.obj # ev.ok THEN "fabricated:object and error disagree for '" \o ev.s \o "'"
+                          ELSE IF ~Has(ev, "long") /\ ev.ok # acc THEN "accept:" \o ev.fam \o " " \o ev.lvl \o " decoder verdict on '" \o ev.s \o "'"
+                          ELSE "ok")
        [] Pid = "C11" -> (IF ev.panic THEN "ok" ELSE ErrVerdict(ev, D))
        [] Pid = "C09" -> (IF ev.ok /\ acc /\ ev.obj THEN FieldsVerdict(ev) ELSE "ok")
        [] Pid = "C10" -> (IF ev.ok /\ acc /\ ev.obj THEN EncVerdict(ev) ELSE "ok")
